@@ -104,3 +104,49 @@ func VfC17_AssignMetadataIDs() {
 		vfAssert("C17.assign.idempotent.same", defs[i].ID() == ids[i])
 	}
 }
+
+// VfC17_Interleaved: unique IDs and ID-printing references while two printers
+// interleave (vfPar, at most 1 preemption, 2 thorough) on a module whose
+// metadata was numbered by an earlier print or not at all: both texts equal
+// the text of an identically built module printed alone - every definition
+// printed once under its number, every reference as `!N` - and afterwards the
+// definitions carry distinct, non-negative IDs.
+//
+//vf:unwind 300
+//vf:steps 90000000
+func VfC17_Interleaved() {
+	m, _ := hC13Module()
+	twin, _ := hC13Module()
+	printed := vfChoice("printed-before", 2) == 1
+	if printed {
+		_ = m.String()
+	}
+	budget := 1
+	if vfTier() > 0 {
+		budget = 2
+	}
+	var s1, s2 string
+	vfPar(func() { s1 = m.String() }, func() { s2 = m.String() }, budget)
+	want := twin.String()
+	vfReach("C17.interleaved")
+	vfAssert("C17.interleaved.texts-are-the-sequential-text", vfAnd(s1 == want, s2 == want))
+	ok := true
+	for i, d := range m.MetadataDefs {
+		if d.ID() < 0 {
+			ok = false
+		}
+		for j := i + 1; j < len(m.MetadataDefs); j++ {
+			if m.MetadataDefs[j].ID() == d.ID() {
+				ok = false
+			}
+		}
+	}
+	vfAssert("C17.interleaved.ids-unique-and-assigned", ok)
+	// (one obligation per initial state, so that a counterexample of each is
+	// replayed natively)
+	if printed {
+		vfAssert("C17.interleaved.already-numbered.race-free", vfNoRace())
+	} else {
+		vfAssert("C17.interleaved.never-numbered.race-free", vfNoRace())
+	}
+}
